@@ -65,6 +65,7 @@ class Profile:
         self.min_calls = 0
         self.loop_weight = 1
         self.if_weight = 2
+        self.empty_prob = 0.1          # a block / scope / loop / branch / macro body with no statement at all
         self.lead_reloc = 0.04         # the program starts with @= instead of *=
         self.pos_expr = 0.35           # *= / @= targets inside macro bodies and loops that depend on a parameter / the loop variable
         for k, v in kw.items():
@@ -250,6 +251,9 @@ class ProgGen:
                 ks += ["call"] * p.call_weight
         return ks
 
+    def nbody(self, lo: int, hi: int) -> int:
+        return 0 if self.rng.random() < self.p.empty_prob else self.rng.randint(lo, hi)
+
     def skeleton(self, gs: GS, n: int, depth: int, in_macro=False, in_loop=False, allow_calls=None):
         rng = self.rng
         out = []
@@ -276,7 +280,7 @@ class ProgGen:
             elif k in ("block", "for"):
                 child = GS(gs, "block" if k == "block" else "loop")
                 node["gs"] = child
-                node["b"] = self.skeleton(child, rng.randint(1, 4), depth + 1, in_macro, in_loop or k == "for", allow_calls)
+                node["b"] = self.skeleton(child, self.nbody(1, 4), depth + 1, in_macro, in_loop or k == "for", allow_calls)
             elif k == "scope":
                 self.n_scope += 1
                 child = GS(gs, "named")
@@ -291,7 +295,7 @@ class ProgGen:
                         node["n"] = rng.choice(cand)
                         real.scope_names.add(node["n"])
                 node["gs"] = child
-                node["b"] = self.skeleton(child, rng.randint(1, 4), depth + 1, in_macro, in_loop, allow_calls)
+                node["b"] = self.skeleton(child, self.nbody(1, 4), depth + 1, in_macro, in_loop, allow_calls)
                 gs.exports += [f"{node['n']}.{l}" for l in child.labels]
             elif k == "if":
                 # labels planned inside a branch only exist when it is assembled: they are visible to the
@@ -302,8 +306,8 @@ class ProgGen:
                     # literal non-zero condition: the branch is written out by hand in the equivalent program, so its
                     # names belong to (and are referenced from) the enclosing scope
                     node["gs_t"] = gs
-                node["t"] = self.skeleton(node["gs_t"], rng.randint(1, 3), depth + 1, in_macro, in_loop, allow_calls)
-                node["e"] = self.skeleton(node["gs_e"], rng.randint(1, 2), depth + 1, in_macro, in_loop, allow_calls) if rng.random() < 0.5 else None
+                node["t"] = self.skeleton(node["gs_t"], self.nbody(1, 3), depth + 1, in_macro, in_loop, allow_calls)
+                node["e"] = self.skeleton(node["gs_e"], self.nbody(1, 2), depth + 1, in_macro, in_loop, allow_calls) if rng.random() < 0.5 else None
             elif k == "call":
                 node["m"] = rng.choice(self.macros if allow_calls is None else allow_calls)
             out.append(node)
@@ -327,7 +331,7 @@ class ProgGen:
                 m["wide"] = rng.choice(plain)
                 gs.wide = m["wide"]
             saved = self.budget
-            self.budget = rng.randint(2, 5)
+            self.budget = self.nbody(2, 5)
             m["b"] = self.skeleton(gs, self.budget, 1, in_macro=True, allow_calls=list(self.macros))
             self.budget = saved
             if self.p.recursion and params and params[0] not in code_params and m["wide"] != params[0] and rng.random() < 0.3:
@@ -742,7 +746,8 @@ def random_usermap(rng):
     if not specs:
         specs = [{"id": 1, "first": 0, "last": 15, "win": "hi32", "ram": False, "mirror": None}]
     if rng.random() < 0.6 and cursor + 2 < 256:
-        specs.append({"id": ident, "first": cursor, "last": cursor + 1, "win": "full64", "ram": True, "mirror": None})
+        mirror = [cursor + 3, cursor + 4] if rng.random() < 0.3 and cursor + 5 < 256 else None  # RAM seen at two bank ranges
+        specs.append({"id": ident, "first": cursor, "last": cursor + 1, "win": "full64", "ram": True, "mirror": mirror})
     return specs
 
 
